@@ -206,7 +206,20 @@ def check_implicit(case):
     z = vtz.oracle_tz(tzname) if tzname else dt.timezone.utc
     aware = inst.replace(tzinfo=dt.timezone.utc).astimezone(z)
     off = aware.utcoffset()
-    wall = aware.replace(tzinfo=None) + sign * dt.timedelta(microseconds=n * US[unit])
+    if unit in ("month", "year", "decade"):
+        # calendar steps are taken on the wall clock of the base *in TIMEZONE* (clamping at that zone's month ends); what the
+        # base looks like in TO_TIMEZONE only matters for the final re-expression
+        cls.append("implicit-now:calendar-unit")
+        ws = expected(aware.replace(tzinfo=None), [[unit, str(n)]], sign, None)
+        wall = next(iter(ws))
+        if wall is None:
+            return {"ok": True, "skip": "implicit now: result out of range", "cls": cls}
+        if aware.replace(tzinfo=None).day != wall.day:
+            cls.append("implicit-now:clamped")
+        if to_tz and aware.astimezone(vtz.oracle_tz(to_tz)).replace(tzinfo=None).date() != aware.replace(tzinfo=None).date():
+            cls.append("implicit-now:zones-on-different-days")
+    else:
+        wall = aware.replace(tzinfo=None) + sign * dt.timedelta(microseconds=n * US[unit])
     res_inst = (wall - off).replace(tzinfo=dt.timezone.utc)
     if res_inst.astimezone(z).utcoffset() != off:
         return {"ok": True, "skip": "zone offset changes between now and result", "cls": cls}
@@ -287,8 +300,15 @@ def implicit_cases(draw):
         ["pkt", "Pkt", "ist", "Gmt-3", "gmt+5", "utc+05:30", "aest", "Pst", "pdt", "PKT", "NZDT", "nzdt"])
     tzname = draw(st.one_of(st.none(), st.sampled_from(pool), cased))
     to_tz = draw(st.one_of(st.none(), st.sampled_from(pool), cased))
-    unit = draw(st.sampled_from(["second", "minute", "hour"]))
-    n = draw(st.integers(0, 59)) if unit != "hour" else draw(st.integers(0, 1))
+    unit = draw(st.sampled_from(["second", "minute", "hour", "month", "year", "month", "decade"]))
+    n = draw(st.integers(0, 59)) if unit in ("second", "minute") else draw(st.integers(0, 1)) if unit == "hour" else draw(st.sampled_from([1, 1, 2, 3, 11, 12, 13]))
+    if unit in ("month", "year", "decade"):
+        # month ends / leap days in the last or first hours of the day, where two zones sit on different calendar days
+        y = draw(st.integers(1952, 2036))
+        m = draw(st.integers(1, 12))
+        last = gen.mdays(y, m)
+        d = draw(st.sampled_from([last, last, last - 1, 1, 29 if last >= 29 else last, 30 if last >= 30 else last]))
+        now = [y, m, d, draw(st.sampled_from([0, 1, 2, 11, 20, 21, 22, 23])), draw(st.sampled_from([0, 30, 59])), 0, 0]
     return {"kind": "implicit", "now": now, "tz": tzname, "to_tz": to_tz, "unit": unit, "n": n,
             "sign": draw(st.sampled_from([1, -1]))}
 
